@@ -56,6 +56,13 @@ def grid(tier, seed):
             break
     hc = [(m, qa, qb) for m in (1, 2, 3) for qa in (1, 2, 3) for qb in (1, 2, 3)]
     rng.shuffle(hc)
+    # every useful life 1, 2, 3 is present in every run (issuing over >= 3 age classes differs from the 2-class special case); small ones first
+    first = []
+    for m_ in (3, 2, 1):
+        cands = [c for c in hc if c[0] == m_ and (m_ < 3 or c[1] * c[2] <= 2)]
+        if cands:
+            first.append(cands[0])
+    hc = first + [c for c in hc if c not in first]
     take = 5 if tier == "quick" else 16
     for (m, qa, qb) in hc:
         kw = {"max_useful_life": m, "max_order_quantity_a": qa, "max_order_quantity_b": qb, "variable_order_cost_a": dy(rng), "variable_order_cost_b": dy(rng),
